@@ -411,7 +411,6 @@ func (r *renderState) filterRaw(rawHTML []byte) {
 		commentState
 		piState
 		declState
-		cdataState
 	)
 	state := copyState
 	copyStart := 0
@@ -420,15 +419,27 @@ func (r *renderState) filterRaw(rawHTML []byte) {
 		case copyState:
 			if rawHTML[i] == '<' {
 				switch {
-				case hasBytePrefix(rawHTML[i:], cdataPrefix):
-					state = cdataState
-					i += len(cdataPrefix)
 				case hasBytePrefix(rawHTML[i:], htmlCommentPrefix):
-					state = commentState
 					i += len(htmlCommentPrefix)
-				case hasHTMLDeclarationPrefix(rawHTML[i:]):
+					switch {
+					case hasBytePrefix(rawHTML[i:], ">"):
+						// "<!-->" is a complete comment to an HTML parser.
+						i += len(">")
+					case hasBytePrefix(rawHTML[i:], "->"):
+						// So is "<!--->".
+						i += len("->")
+					default:
+						state = commentState
+					}
+				case hasBytePrefix(rawHTML[i:], "<!"),
+					hasBytePrefix(rawHTML[i:], processingInstructionPrefix),
+					hasBytePrefix(rawHTML[i:], "</") && !(i+2 < len(rawHTML) && isASCIILetter(rawHTML[i+2])):
+					// Declarations, CDATA sections (outside of foreign content),
+					// processing instructions, "</" not followed by a name,
+					// and anything else that starts with "<!"
+					// end at the first '>' for an HTML parser.
 					state = declState
-					i += len("<!x")
+					i += len("<!")
 				default:
 					tagNameStart := i + 1
 					tagEnd := len(rawHTML)
@@ -437,22 +448,35 @@ func (r *renderState) filterRaw(rawHTML []byte) {
 					}
 					tagNameEnd := tagNameStart + htmlTagNameEnd(rawHTML[tagNameStart:tagEnd])
 					tagName := maybeLower(rawHTML[tagNameStart:tagNameEnd], &r.lowerBuf)
-					if r.FilterTag(tagName) {
+					escaped := r.FilterTag(tagName)
+					if escaped {
 						r.dst = append(r.dst, rawHTML[copyStart:i]...)
 						r.dst = append(r.dst, "&lt;"...)
-						r.dst = append(r.dst, rawHTML[tagNameStart:tagEnd]...)
-						copyStart = tagEnd
+						copyStart = tagNameStart
 					}
-					i = tagEnd
+					isEndTag := tagNameStart < len(rawHTML) && rawHTML[tagNameStart] == '/'
+					if escaped || (tagNameEnd == tagNameStart && !isEndTag) {
+						// An escaped '<' no longer opens a tag
+						// and a '<' that is followed by neither a tag name nor a slash never did:
+						// whatever comes next is examined on its own.
+						i = tagNameStart
+					} else {
+						i = tagEnd
+					}
 				}
 			} else {
 				i++
 			}
 		case commentState:
-			if hasBytePrefix(rawHTML[i:], htmlCommentSuffix) {
+			switch {
+			case hasBytePrefix(rawHTML[i:], htmlCommentSuffix):
 				state = copyState
 				i += len(htmlCommentSuffix)
-			} else {
+			case hasBytePrefix(rawHTML[i:], "--!>"):
+				// HTML parsers also end a comment here.
+				state = copyState
+				i += len("--!>")
+			default:
 				i++
 			}
 		case piState:
@@ -467,13 +491,6 @@ func (r *renderState) filterRaw(rawHTML []byte) {
 				state = copyState
 			}
 			i++
-		case cdataState:
-			if hasBytePrefix(rawHTML[i:], cdataSuffix) {
-				state = copyState
-				i += len(cdataSuffix)
-			} else {
-				i++
-			}
 		default:
 			panic("unreachable")
 		}
